@@ -44,6 +44,7 @@ class SimLoop(base_events.BaseEventLoop):
         self.stat_callbacks = 0
         self._endpoints = {}             # fd object -> [reader handle, writer handle]
         self.on_idle_deadlock = None
+        self.after_callback = None       # invariant hook: called after every callback (what any observer can see)
         self.last_stall = 0.0            # size of the stall applied in the current iteration
         self.stall_log = []              # (nominal time, landed time)
 
@@ -201,6 +202,8 @@ class SimLoop(base_events.BaseEventLoop):
                 continue
             self.stat_callbacks += 1
             h._run()
+            if self.after_callback is not None:
+                self.after_callback()
         h = None
 
     def _shuffle_ties(self, due):
